@@ -57,11 +57,10 @@ def optListStr (xs : List (Option Nat)) : String :=
   if xs.isEmpty then "-" else ",".intercalate (xs.map optStr)
 
 /--
-`rows  d q n text` — rows/fields by iteration, cross-checked against the splitting spec
-                     (`MODEL-SPEC <code model> spec=<spec>` when the code model deviates);
-`rowsc d q n text` — the same, code model only (exact tie of the implementation to the model);
-`get   d q n text` — `Dsv::row(r)` for r in 0..=R+1 and `get(c)` for c in 0..=nf+1, cross-checked;
-`getc  d q n text` — code model only;
+`rows  d q n text` — rows/fields by iteration (cursor model; = splitting spec by `Props.C21.fields_eq`);
+`get   d q n text` — `Dsv::row(r)` for r in 0..=R+1 and `get(c)` for c in 0..=nf+1 (= spec by `cell_eq`);
+`rowss d q n text` — `rows` with an explicit run-time cross-check of model vs spec (rows and grid);
+`rowsc`/`getc`     — aliases of `rows`/`get` (old replay files);
 `cur   d q n text ops` — a `DsvCursor` driven through an operation list;
 `rs    words textlen is ks` — rank1/select1 of an index built from raw words (both bit vectors).
 -/
@@ -81,16 +80,13 @@ def exec (a : List String) : String :=
     let d := byteOf d; let q := byteOf q; let n := byteOf n
     let text := parseBytes t
     let c := parse d q n text
-    if op == "rows" then
+    if op == "rows" || op == "rowsc" then rowsStr c.rows
+    else if op == "get" || op == "getc" then gridModel c
+    else if op == "rowss" then
+      -- spec cross-check on demand (model = spec is `Props.C21.fields_eq` / `cell_eq`)
       let m := rowsStr c.rows
       let s := rowsStr (rowsSpec d q n text)
-      if m ≠ s then s!"MODEL-SPEC {m} spec={s}" else m
-    else if op == "rowsc" then rowsStr c.rows
-    else if op == "get" then
-      let m := gridModel c
-      let s := gridSpec d q n text
-      if m ≠ s then s!"MODEL-SPEC {m} spec={s}" else m
-    else if op == "getc" then gridModel c
+      if m ≠ s ∨ gridModel c ≠ gridSpec d q n text then s!"MODEL-SPEC {m} spec={s}" else m
     else "BAD-OP"
   | ["cur", d, q, n, t, ops] =>
     let c := parse (byteOf d) (byteOf q) (byteOf n) (parseBytes t)
